@@ -521,86 +521,97 @@ def explore_failed_step(run, focus, n):
         run.case(cj, nontrivial=True)
 
 
+def run_eager_recall(k, chain, instrumented, posts_after):
+    """k deferred events (payloads 0..k-1), an OTHER event (payload 1000+j) posted after the deferrals listed in posts_after, then
+    recalls from outside until one returns None; returns (driver ops, dispatched, returned, still deferred, still queued, error)"""
+    dispatched, returned, ops = [], [], []
+
+    class Eager(mhsm.HsmWithQueues):
+        _running = False
+
+        def _drain(self):
+            if self._running:
+                return
+            self._running = True
+            try:
+                while self.next_rtc():
+                    pass
+            finally:
+                self._running = False
+
+        def post_fifo(self, e):
+            super().post_fifo(e)
+            self._drain()
+
+        def post_lifo(self, e):
+            super().post_lifo(e)
+            self._drain()
+
+    def st(chart, e):
+        if e.signal_name in ("DEFERRED_WORK", "OTHER"):
+            dispatched.append(e.payload)
+            if chain and e.signal_name == "DEFERRED_WORK":
+                r = chart.recall()
+                returned.append(None if r is None else r.payload)
+            return return_status.HANDLED
+        if e.signal in (signals.ENTRY_SIGNAL, signals.INIT_SIGNAL, signals.EXIT_SIGNAL):
+            return return_status.HANDLED
+        chart.temp.fun = chart.top
+        return return_status.SUPER
+    st.__name__ = "only"
+    hsm = Eager(instrumented=False) if not instrumented else Eager()
+    hsm.start_at(mhsm.spy_on(st) if instrumented else st)
+    err = None
+    try:
+        for i in range(k):
+            hsm.defer(Event(signal="DEFERRED_WORK", payload=i))
+            ops += [0, i]
+            if i in posts_after:
+                hsm.post_fifo(Event(signal="OTHER", payload=1000 + i))
+                ops += [2, 1000 + i]
+        for _j in range(k + 1):
+            ops += [1, 0]
+            r = hsm.recall()
+            returned.append(None if r is None else r.payload)
+            if r is None:
+                break
+    except Exception as ex:  # noqa
+        err = "%s: %s" % (type(ex).__name__, ex)
+    return ops, dispatched, returned, [e.payload for e in hsm.defer_queue], [e.payload for e in hsm.queue], err
+
+
 def explore_eager_recall(run, n):
     """C15 on a queued chart that runs as soon as something is posted (a subclass whose post_fifo / post_lifo step the chart until
     its queue is empty - the usual way to drive a queued chart without a thread) and whose handler recalls the next deferred event
     whenever it is handed one: a recall made from inside the step that an outer recall's post started. Every deferred event is
-    dispatched exactly once, in deferral order; every recall returns the event it released (oracle only)"""
+    dispatched exactly once, in deferral order; every recall returns the event it released. Tied to the Lean model
+    `Queue.EagerRecall` (family `eager`): dispatch order, the recalls' return values in order of return, both queues"""
     rng = run.rng
+    done = []
     for _ in range(n):
         k = rng.randint(1, 6)
         chain = rng.random() < 0.8          # the handler recalls the next one when handed a released event
         instrumented = rng.random() < 0.5
-        dispatched, returned = [], []
-
-        class Eager(mhsm.HsmWithQueues):
-            _running = False
-
-            def _drain(self):
-                if self._running:
-                    return
-                self._running = True
-                try:
-                    while self.next_rtc():
-                        pass
-                finally:
-                    self._running = False
-
-            def post_fifo(self, e):
-                super().post_fifo(e)
-                self._drain()
-
-            def post_lifo(self, e):
-                super().post_lifo(e)
-                self._drain()
-
-        def st(chart, e):
-            if e.signal_name == "DEFERRED_WORK":
-                dispatched.append(e.payload)
-                if chain:
-                    r = chart.recall()
-                    returned.append(None if r is None else r.payload)
-                return return_status.HANDLED
-            if e.signal_name == "OTHER":
-                dispatched.append("other")
-                return return_status.HANDLED
-            if e.signal in (signals.ENTRY_SIGNAL, signals.INIT_SIGNAL, signals.EXIT_SIGNAL):
-                return return_status.HANDLED
-            chart.temp.fun = chart.top
-            return return_status.SUPER
-        st.__name__ = "only"
-        hsm = Eager(instrumented=instrumented) if not instrumented else Eager()
-        hsm.start_at(mhsm.spy_on(st) if instrumented else st)
-        script = []
-        for i in range(k):
-            hsm.defer(Event(signal="DEFERRED_WORK", payload=i))
-            script.append(("defer", i))
-            if rng.random() < 0.3:
-                hsm.post_fifo(Event(signal="OTHER"))
-                script.append(("post",))
-        err = None
-        n_outer = 0
-        try:
-            for _j in range(k + 1):
-                r = hsm.recall()
-                n_outer += 1
-                returned.append(None if r is None else r.payload)
-                script.append(("recall",))
-                if r is None:
-                    break
-        except Exception as ex:  # noqa
-            err = "%s: %s" % (type(ex).__name__, ex)
-        cj = {"what": "eager-recall", "deferred": k, "chain": chain, "instrumented": instrumented, "script": script}
+        posts_after = sorted(i for i in range(k) if rng.random() < 0.3)
+        ops, dispatched, returned, dq, q, err = run_eager_recall(k, chain, instrumented, posts_after)
+        cj = {"what": "eager-recall", "deferred": k, "chain": chain, "instrumented": instrumented, "posts_after": posts_after}
         run.count("recall from inside the step an outer recall started" if chain else "recall on a chart that runs at every post")
-        run.traces_validated += 1
-        got = [d for d in dispatched if d != "other"]
+        got = [d for d in dispatched if d < 1000]
         rets = [x for x in returned if x is not None]
         if err:
             run.violate("C15/recall-error", "%d deferred events, recalls from outside%s: %s" % (k, " and from the handler" if chain else "", err), cj)
-        elif got != list(range(k)) or sorted(rets) != list(range(k)) or len(hsm.defer_queue) != 0:
-            run.violate("C15/recall-order", "%d events deferred in order 0..%d; dispatched %s, recalls returned %s, still deferred %d" % (
-                k, k - 1, got, returned, len(hsm.defer_queue)), cj)
+        elif got != list(range(k)) or sorted(rets) != list(range(k)) or dq or q:
+            run.violate("C15/recall-order", "%d events deferred in order 0..%d; dispatched %s, recalls returned %s, still deferred %s, still queued %s" % (
+                k, k - 1, got, returned, dq, q), cj)
+        done.append((cj, ops, dispatched, returned, dq, q, err))
         run.case(cj, nontrivial=chain and k >= 2)
+    fmt = lambda l: ",".join("n" if x is None else str(x) for x in l) or "-"
+    outs = leanrun.run_driver(["eager 9 %d %d %s" % (1 if cj["chain"] else 0, len(ops) // 2, " ".join(map(str, ops))) for cj, ops, *_ in done])
+    for (cj, ops, dispatched, returned, dq, q, err), mo in zip(done, outs):
+        run.traces_validated += 1
+        want = "dispatched=%s returned=%s dq=%s q=%s failed=%d running=0" % (fmt(dispatched), fmt(returned), fmt(dq), fmt(q), 1 if err else 0)
+        if mo.strip() != want and not err:
+            run.disagree("recall re-entered from the step its own post started", cj, mo, want)
 
 
 def explore_nested_circuit(run, focus, n):
@@ -772,7 +783,10 @@ def upto(cj, idx):
 
 def replay(case):
     cc = case.get("case", case)
-    if cc.get("what") in ("failed-step", "nested-circuit", "eager-recall"):
+    if cc.get("what") == "eager-recall":
+        print(run_eager_recall(cc["deferred"], cc["chain"], cc["instrumented"], cc.get("posts_after", [])))
+        return 0
+    if cc.get("what") in ("failed-step", "nested-circuit"):
         print(cc.get("what"), "case:", cc)
         return 0
     if cc.get("what") == "same-objects":
